@@ -85,8 +85,10 @@ def gen_request(t):
         if kind == "json":
             body = json.dumps({"a": [1, 2, t.draw(10)], "k": t.choice(["v", "é", ""])}).encode("utf-8")
             headers.append(("Content-Type", t.choice(["application/json", "application/json; charset=utf-8"])))
+            if t.draw(5) == 0:
+                body = b"\xef\xbb\xbf" + body       # some clients (PowerShell, .NET) put a byte-order mark in front
         elif kind == "badjson":
-            body = t.choice([b"{", b"[1,", b"nope"])
+            body = t.choice([b"{", b"[1,", b"nope", b"\xef\xbb\xbf", b"\xef\xbb\xbfnope", b"\xff\xfe{\x00}\x00", b'"\xe9"'])
             headers.append(("Content-Type", "application/json"))
         elif kind == "urlenc":
             body = ("a=1&b=%d&c=%s&a=2" % (t.draw(10), t.choice(["x", "%20y", ""]))).encode()
